@@ -330,22 +330,30 @@ func runC19(c *Ctx) {
 		at     *ssa.Call // the call in Wrap
 		name   ssa.Value // the name, as a value of Wrap
 		recvOK bool
+		// when the helper takes the name out of a list of sections it is handed (refinements[0] of sections[1:]):
+		// the section number, whether the helper has made sure that element exists, and the row name under which a
+		// dispatch table selects the helper ("" when Wrap calls it directly)
+		viaList   bool
+		listK     int
+		listOK    bool
+		listExist bool
+		rowName   string
 	}
 	var events []nameEvent
-	eachInstr(wrap, func(in ssa.Instruction) {
-		call, ok := in.(*ssa.Call)
-		if !ok {
+	splitOfStyle := func(v ssa.Value) bool {
+		call, ok := v.(*ssa.Call)
+		if !ok || !isFunc(call.Call.StaticCallee(), "strings", "Split") {
+			return false
+		}
+		sep, _ := constString(call.Call.Args[1])
+		return call.Call.Args[0] == style && sep == "."
+	}
+	// helperEvents: the places in helper `callee`, called at `call` with `args`, where a decoration is named
+	helperEvents := func(call *ssa.Call, callee *ssa.Function, args []ssa.Value, rowName string) {
+		if callee == nil || callee.Blocks == nil || len(args) != len(callee.Params) {
 			return
 		}
-		callee := call.Call.StaticCallee()
-		if callee == setNamed {
-			rc, isCall := call.Call.Args[0].(*ssa.Call)
-			events = append(events, nameEvent{call, call.Call.Args[1], isCall && rc.Call.StaticCallee() == ttWrap && rc.Call.Args[0] == ssa.Value(wrap.Params[0])})
-			return
-		}
-		if callee == nil || callee.Blocks == nil || funcPkgPath(callee) != pkgPath("auto") || len(call.Call.Args) != len(callee.Params) {
-			return
-		}
+		ph := c.Idx().proverFor(callee)
 		eachInstr(callee, func(in2 ssa.Instruction) {
 			c2, ok2 := in2.(*ssa.Call)
 			if !ok2 || c2.Call.StaticCallee() != setNamed {
@@ -354,24 +362,105 @@ func runC19(c *Ctx) {
 			actual := func(v ssa.Value) ssa.Value {
 				for k, par := range callee.Params {
 					if v == ssa.Value(par) {
-						return call.Call.Args[k]
+						return args[k]
 					}
 				}
 				return nil
 			}
-			nm := actual(c2.Call.Args[1])
-			if nm == nil {
-				nm = c2.Call.Args[1] // not a parameter: judged as it stands (a constant, say)
-			}
 			rc, isCall := c2.Call.Args[0].(*ssa.Call)
 			recvOK := isCall && rc.Call.StaticCallee() == ttWrap && actual(rc.Call.Args[0]) == ssa.Value(wrap.Params[0])
-			events = append(events, nameEvent{call, nm, recvOK})
+			nmV := c2.Call.Args[1]
+			if nm := actual(nmV); nm != nil {
+				events = append(events, nameEvent{at: call, name: nm, recvOK: recvOK, rowName: rowName})
+				return
+			}
+			// refinements[k] of a parameter that is handed sections[lo:hi]
+			if sl, k := sectionOf(nmV); sl != nil {
+				if act := actual(sl); act != nil {
+					ev := nameEvent{at: call, name: nmV, recvOK: recvOK, viaList: true, rowName: rowName}
+					if s2, isSl := act.(*ssa.Slice); isSl && splitOfStyle(s2.X) {
+						lo := int64(0)
+						okLo := true
+						if s2.Low != nil {
+							lo, okLo = constInt(s2.Low)
+						}
+						if okLo {
+							ev.listK, ev.listOK = int(lo)+k, true
+						}
+					} else if splitOfStyle(act) {
+						ev.listK, ev.listOK = k, true
+					}
+					if ni, isI := nmV.(ssa.Instruction); isI {
+						ev.listExist, _ = ph.prove(lt(linConst(int64(k)), ph.lenOf(sl), "the section exists"), ni, nil, 0)
+					}
+					events = append(events, ev)
+					return
+				}
+			}
+			events = append(events, nameEvent{at: call, name: nmV, recvOK: recvOK, rowName: rowName}) // judged as it stands (a constant, say)
 		})
+	}
+	eachInstr(wrap, func(in ssa.Instruction) {
+		call, ok := in.(*ssa.Call)
+		if !ok {
+			return
+		}
+		callee := call.Call.StaticCallee()
+		if callee == setNamed {
+			rc, isCall := call.Call.Args[0].(*ssa.Call)
+			events = append(events, nameEvent{at: call, name: call.Call.Args[1], recvOK: isCall && rc.Call.StaticCallee() == ttWrap && rc.Call.Args[0] == ssa.Value(wrap.Params[0])})
+			return
+		}
+		if callee == nil && !call.Call.IsInvoke() {
+			// the function of the matching row of a dispatch table: each row's function is a possible callee, under
+			// that row's name
+			for _, dt := range c.dispatchTablesOf("auto") {
+				if _, isT := tableElemFieldLoad(call.Call.Value, dt.G, dt.FnField); !isT {
+					continue
+				}
+				for k, f := range dt.Fns {
+					if k < len(dt.Names) {
+						helperEvents(call, f, call.Call.Args, dt.Names[k])
+					}
+				}
+			}
+			return
+		}
+		if callee == nil || callee.Blocks == nil || funcPkgPath(callee) != pkgPath("auto") || len(call.Call.Args) != len(callee.Params) {
+			return
+		}
+		helperEvents(call, callee, call.Call.Args, "")
 	})
 	for _, ev := range events {
 		call := ev.at
 		nset++
 		r.Check("R19.3", FuncName(wrap), fmt.Sprintf("decoration #%d is set on texttable.Wrap(t)", nset), call.Pos(), ev.recvOK, "")
+		if ev.viaList {
+			switch {
+			case !ev.listOK:
+				r.Check("R19.3", FuncName(wrap), fmt.Sprintf("decoration name #%d is a section of the style", nset), call.Pos(), false, "the helper takes the name from a list that is not the style's sections")
+			case ev.listK == 0:
+				r.Check("R19.3", FuncName(wrap), fmt.Sprintf("decoration name #%d: bare NAME is section 0 as written", nset), call.Pos(), ev.rowName == "", "section 0 is the package name when a row of the dispatch table was selected")
+			case ev.listK == 1:
+				underTT := ev.rowName == "texttable"
+				if !underTT {
+					for _, cf := range expandConds(dominatingConds(call.Block())) {
+						if b, isB := cf.Cond.(*ssa.BinOp); isB && (b.Op == token.EQL && cf.Val || b.Op == token.NEQ && !cf.Val) {
+							for _, side := range []ssa.Value{b.X, b.Y} {
+								if s1, isS := constString(side); isS && s1 == "texttable" {
+									underTT = true
+								}
+							}
+						}
+					}
+				}
+				r.Check("R19.3", FuncName(wrap), fmt.Sprintf("decoration name #%d: section 1 is used only for 'texttable.NAME' and only when it exists", nset), call.Pos(), underTT && ev.listExist,
+					fmt.Sprintf("under the texttable key: %v; second section known to exist: %v", underTT, ev.listExist))
+			default:
+				r.Check("R19.3", FuncName(wrap), fmt.Sprintf("decoration name #%d is section 0 or 1", nset), call.Pos(), false, fmt.Sprintf("section %d", ev.listK))
+			}
+			continue
+		}
 		for _, v := range phiClosure(ev.name) {
 			k, rest, lowered, okS := sectionExpr(v, style, 0)
 			// the sections may be cut out by a helper of the package: splitStyle(style) (first, second string, haveSecond bool)
